@@ -714,7 +714,111 @@ func eachContainerLength(emit func(wireCase)) {
 	}
 }
 
+// UnpackRRWithHeader with a caller-supplied header: every type x RDLENGTH shorter than, equal to and
+// longer than the RDATA that is really there, followed by more octets
+type hdrCase struct {
+	Type     uint16
+	Rdlength uint16
+	Msg      []byte
+	Off      int
+}
+
+func checkWithHeader(c hdrCase) error {
+	off := c.Off
+	if off < 0 || off > len(c.Msg) {
+		off = 0
+	}
+	h := dns.RR_Header{Name: "x.", Rrtype: c.Type, Class: 1, Ttl: 5, Rdlength: c.Rdlength}
+	var rr dns.RR
+	var noff int
+	var err error
+	alloc, p, hung := measured(func() { rr, noff, err = dns.UnpackRRWithHeader(h, c.Msg, off) })
+	pbt.Note(append([]byte{byte(c.Type), byte(c.Type >> 8), byte(c.Rdlength), byte(c.Rdlength >> 8), byte(off)}, c.Msg...), true, "type:"+typeName(c.Type), fmt.Sprintf("accepted=%v", err == nil))
+	if hung {
+		return pbt.NoShrink{Err: pbt.Errf("UnpackRRWithHeader(%s, rdlength %d, %d octets at %d) did not return", typeName(c.Type), c.Rdlength, len(c.Msg), off)}
+	}
+	if p != "" {
+		return pbt.Errf("UnpackRRWithHeader(%s, rdlength %d, %d octets at %d) panicked: %s", typeName(c.Type), c.Rdlength, len(c.Msg), off, p)
+	}
+	if alloc > allocBound(len(c.Msg)) {
+		return pbt.Errf("UnpackRRWithHeader allocated %d bytes for %d octets", alloc, len(c.Msg))
+	}
+	if err != nil {
+		return nil
+	}
+	if noff != off+int(c.Rdlength) && !(c.Rdlength == 0 && noff == off) {
+		return pbt.Errf("UnpackRRWithHeader(%s) accepted but consumed up to %d, the record ends at %d", typeName(c.Type), noff, off+int(c.Rdlength))
+	}
+	// what lies behind the record must not matter
+	if rr != nil {
+		tail := bytes.Repeat([]byte{0x5a}, 30)
+		alt := append(append([]byte{}, c.Msg[:noff]...), tail...)
+		ptrFree := true
+		for _, b := range c.Msg[off:noff] {
+			if b&0xC0 == 0xC0 {
+				ptrFree = false
+			}
+		}
+		if ptrFree {
+			rr2, noff2, err2 := dns.UnpackRRWithHeader(h, alt, off)
+			if err2 != nil || noff2 != noff || rr2 == nil || rr2.String() != rr.String() {
+				return pbt.Errf("UnpackRRWithHeader(%s, rdlength %d): the result depends on octets behind the record (with another tail: err=%v off=%d %v; before: off=%d %v)", typeName(c.Type), c.Rdlength, err2, noff2, rr2, noff, rr)
+			}
+		}
+		if p, hung := guarded(func() { _ = rr.String(); _ = dns.Len(rr); _ = dns.Copy(rr) }); hung || p != "" {
+			return pbt.Errf("record accepted by UnpackRRWithHeader cannot be printed/measured/copied: %s", p)
+		}
+	}
+	return nil
+}
+
+func genWithHeader(t *rapid.T) hdrCase {
+	types := append([]uint16{}, gen.AllTypes...)
+	types = append(types, wm.TOPT, 65281)
+	typ := rapid.SampledFrom(types).Draw(t, "type")
+	var r wm.Rec
+	if typ == wm.TOPT {
+		r = gen.OptRec(t, &gen.Opts{})
+	} else {
+		r = gen.RecOfType(t, typ, &gen.Opts{MaxBlob: 24})
+	}
+	rd := wm.EncodeRdata(r)
+	if len(rd) > 600 {
+		rd = rd[:600]
+	}
+	pre := gen.Bytes(t, rapid.IntRange(0, 4).Draw(t, "pre"), false)
+	tail := gen.Bytes(t, rapid.IntRange(0, 12).Draw(t, "tail"), false)
+	msg := append(append(append([]byte{}, pre...), rd...), tail...)
+	l := len(rd)
+	switch rapid.IntRange(0, 3).Draw(t, "rdk") {
+	case 0:
+	case 1:
+		l = rapid.IntRange(0, len(rd)).Draw(t, "short")
+	case 2:
+		l = len(rd) + rapid.IntRange(1, len(tail)+3).Draw(t, "long")
+	default:
+		l = rapid.IntRange(0, 12).Draw(t, "tiny")
+	}
+	return hdrCase{Type: typ, Rdlength: uint16(l), Msg: msg, Off: len(pre)}
+}
+
+// every type x every RDLENGTH 0..20 over a buffer of 40 octets (several fill patterns)
+func eachHeaderLength(emit func(hdrCase)) {
+	types := append([]uint16{}, gen.AllTypes...)
+	types = append(types, wm.TOPT, 65281)
+	for _, fill := range [][]byte{{0}, {1}, {0xff}, {3, 'a', 'b', 'c', 0}, {0, 1, 0, 2}} {
+		msg := bytes.Repeat(fill, 40)[:40]
+		for _, typ := range types {
+			for l := 0; l <= 20; l++ {
+				emit(hdrCase{Type: typ, Rdlength: uint16(l), Msg: msg, Off: 2})
+			}
+		}
+	}
+}
+
 func init() {
+	pbt.Register(pbt.Sub[hdrCase]{Name: "rr-with-header", Weight: 20, Gen: genWithHeader, Check: checkWithHeader})
+	pbt.RegisterEnum(pbt.Enum[hdrCase]{Name: "rr-with-header-every-length", Exhaustive: true, Each: eachHeaderLength, Check: checkWithHeader})
 	pbt.RegisterEnum(pbt.Enum[wireCase]{Name: "option-and-param-body-lengths", Exhaustive: true, Each: eachContainerLength, Check: checkMsg})
 	pbt.Register(pbt.Sub[wireCase]{Name: "msg-unpack", Weight: 40, Gen: genMsgInput, Check: checkMsg})
 	pbt.Register(pbt.Sub[wireCase]{Name: "rr-unpack", Weight: 30, Gen: genRRInput, Check: checkRR})
